@@ -13,7 +13,7 @@ def make_cases(rng, tier, n):
             ops = [("run", False, []), ("commit", rng.choice("lc"), [])]
             names = [sp for sp, st in c["stages"]]
         else:
-            c = gen.basic_project(rng, "pf-%d" % i, tier, stats=stats, allow_inputs=False)
+            c = gen.basic_project(rng, "pf-%d" % i, tier, stats=stats, allow_inputs=False, wide=(i % 12 == 5))
             ops = [("commit", rng.choice("lc"), [])]
             names = [sp for sp, st in c["stages"]]
         keep = [b"workdir", b"workdir/inner"] if c.get("cwd") else []
